@@ -8,6 +8,7 @@ import (
 	"sort"
 	"strconv"
 	"testing"
+	"time"
 
 	"pgregory.net/rapid"
 )
@@ -127,9 +128,10 @@ func minimize(tr *Trace) *Trace {
 	ops := append([]Op(nil), tr.Ops...)
 	msg := tr.Failure
 	budget := 4000
-	for chunk := len(ops) / 2; chunk >= 1 && budget > 0; {
+	deadline := time.Now().Add(60 * time.Second) // shrinking only: a shorter replay is nicer, the verdict does not depend on it
+	for chunk := len(ops) / 2; chunk >= 1 && budget > 0 && time.Now().Before(deadline); {
 		removed := false
-		for i := 0; i+chunk <= len(ops) && budget > 0; {
+		for i := 0; i+chunk <= len(ops) && budget > 0 && time.Now().Before(deadline); {
 			cand := append(append([]Op(nil), ops[:i]...), ops[i+chunk:]...)
 			budget--
 			if m, ok := fails(cand); ok {
